@@ -236,6 +236,40 @@ class Plugin(BasePlugin):
                 bad.append(op['op'] + (':' + str(op.get('proj')) if op.get('proj') else '') + '=' + '+'.join(why))
         return ' '.join(bad[:3])
 
+    @staticmethod
+    def step_ok(o):
+        """the statement on one observed step (the Python twin of c07_step_ok)"""
+        st = [set(x) for x in o['store_ids']]
+        for i in range(len(st)):
+            for j in range(i + 1, len(st)):
+                if st[i] & st[j]:
+                    return False
+        held = set(o['args_ids']) | set(o['result_ids'])
+        return not any(x & held for x in st) and o['args_ok'] and o['scribble_ok']
+
+    def extra_checks(self, rng, tier, seed):
+        """Implementation-only search: the observed-step predicate evaluated in Python on
+        lookup-heavy histories (also runs when the Coq side does not build)."""
+        n = 150 if tier == 'quick' else 3000
+        viol, steps = [], 0
+        for i in range(n):
+            case = self.gen_case(rng, i, tier)
+            if rng.random() < 0.5:
+                case['ops'].append({'op': 'aggregate', 'pipeline': [
+                    {'$lookup': {'from': 'c', 'localField': rng.choice(['_id', 'a']), 'foreignField': '_id', 'as': 'j'}}]})
+            obs = self.run_impl(case)
+            steps += len(obs)
+            bad = [k for k, o in enumerate(obs) if not self.step_ok(o)]
+            if bad:
+                small = {'ops': case['ops'][:bad[0] + 1], 'pre5': False}
+                viol.append(dict(self.describe(small, self.run_impl(small)),
+                                 failing_clause='a stored document shares objects with another stored document, '
+                                                'an argument or a returned object, or an argument was edited, '
+                                                'or scribbling on caller-held objects changed the store (step %d)' % bad[0]))
+                if len(viol) >= 3:
+                    break
+        return viol, {'implementation_only_histories': n, 'implementation_only_steps': steps}
+
     def shrink(self, case):
         ops = case['ops']
         for i in range(len(ops)):
